@@ -9,6 +9,7 @@
 #include "../engine/src.h"
 #include "../genlib/parsed.h"
 #include "../genlib/builder.h"
+#include "../genlib/optconv.h"
 #include <functional>
 #include <algorithm>
 #include <memory>
@@ -1242,6 +1243,20 @@ struct Prog {
         if (m.cls == "RTP") {
             RTP& r = const_cast<RTP&>(static_cast<const RTP&>(p));
             for (uint32_t x : m.csrc) VCHECK(ctx, r.search_csrc_id(x), "C04:RTP:search_csrc_id" + tail, x << " | " << ctxt);
+        }
+        // the generic decoders option.to<T>() against reference conversions of the option's bytes
+        if (m.oc != OC_NONE && kind != "set") {
+            switch (m.oc) {
+                case OC_TCP: for (const TCP::option& o : static_cast<const TCP&>(p).options()) optconv::check(ctx, o, ctxt); break;
+                case OC_IP: for (const IP::option& o : static_cast<const IP&>(p).options()) optconv::check(ctx, o, ctxt); break;
+                case OC_ICMPV6: for (const ICMPv6::option& o : static_cast<const ICMPv6&>(p).options()) optconv::check(ctx, o, ctxt); break;
+                case OC_DHCP: for (const DHCP::option& o : static_cast<const DHCP&>(p).options()) optconv::check(ctx, o, ctxt); break;
+                case OC_DHCPV6: for (const DHCPv6::option& o : static_cast<const DHCPv6&>(p).options()) optconv::check(ctx, o, ctxt); break;
+                case OC_DOT11: for (const Dot11::option& o : static_cast<const Dot11&>(p).options()) optconv::check(ctx, o, ctxt); break;
+                case OC_PPPOE: for (const PPPoE::tag& o : static_cast<const PPPoE&>(p).tags()) optconv::check(ctx, o, ctxt); break;
+                case OC_IPV6: for (const IPv6::ext_header& o : static_cast<const IPv6&>(p).headers()) optconv::check(ctx, o, ctxt); break;
+                default: break;
+            }
         }
     }
     void check_all(const std::string& kind, const std::string& name) {
